@@ -1192,6 +1192,9 @@ func executeFree(sc Script, rep *kit.Report) error {
 			cfg := s.config(m, i)
 			cfg.RequestTimeout, cfg.MaxProposals = 0, 0
 			cfg.Peers = peers
+			// a joining node does not know the cluster key (cluster.Open passes none): it
+			// learns it from the response, and its own arbitrator must hand it on
+			cfg.ClusterKey = uuid.Nil
 			res, err := pledge.Pledge(ctx, cfg, pledge.BlazingFastConfig)
 			if err != nil {
 				tmu.Lock()
@@ -1222,6 +1225,42 @@ func executeFree(sc Script, rep *kit.Report) error {
 		v := s.violation
 		s.mu.Unlock()
 		return finish(s, rep, v, errTimeout)
+	}
+	// ---- chained join: one more node pledges through a node that itself joined by
+	// pledging during the burst (its arbitrator was started by pledge.Pledge, not by the
+	// harness). The response must carry the cluster's key and a fresh node key.
+	s.mu.Lock()
+	var via *member
+	for _, m := range s.members {
+		if m.admitted && m.handler != nil && strings.HasPrefix(string(m.addr), "p") {
+			via = m
+			break
+		}
+	}
+	noViolation := s.violation == nil
+	s.mu.Unlock()
+	if via != nil && noViolation {
+		i := len(sc.Pledges)
+		m := &member{view: map[node.Key]bool{}, approved: map[node.Key]int{}, label: "chained-pledger"}
+		m.addr = address.Address("p-chained")
+		cctx, ccancel := context.WithTimeout(s.rootCtx, 2*time.Second)
+		cfg := s.config(m, i)
+		cfg.RequestTimeout, cfg.MaxProposals = 0, 0
+		cfg.Peers = []address.Address{via.addr}
+		cfg.ClusterKey = uuid.Nil
+		res, perr := pledge.Pledge(cctx, cfg, pledge.BlazingFastConfig)
+		ccancel()
+		s.mu.Lock()
+		if perr != nil {
+			s.event("chained pledge through %s failed: %v", via.label, perr)
+			s.rep.Class("chained-join-failed")
+		} else if c := s.lastCall[i]; c != nil && c.res.Key == res.Key {
+			c.res = res
+			s.event("chained pledge through %s (which joined by pledging) returns key=%d", via.label, res.Key)
+			s.rep.Class("chained-join")
+			s.admit(c, m, 0, false)
+		}
+		s.mu.Unlock()
 	}
 	return finish(s, rep, nil, nil)
 }
